@@ -50,6 +50,16 @@ SPECS["C13"] = dict(
     title="AtomicBaseTime snapshots are never torn and never go backwards, on any schedule",
     lean_modules=["Woodpile.Props.C13"],
     theorems=[
+        "Woodpile.Props.C13.sc_invariant",
+        "Woodpile.Props.C13.sc_hist_is_accepted_updates",
+        "Woodpile.Props.C13.sc_snapshot_not_torn",
+        "Woodpile.Props.C13.sc_snapshot_in_history",
+        "Woodpile.Props.C13.sc_no_panic",
+        "Woodpile.Props.C13.sc_history_valid",
+        "Woodpile.Props.C13.sc_recent",
+        "Woodpile.Props.C13.sc_per_thread_monotone",
+        "Woodpile.Props.C13.sc_published_monotone",
+        "Woodpile.Props.C13.sc_stale_update_ignored",
     ],
     families=[dict(name="abt", quick=1500, thorough=60000)],
     vtags=["C13"],
@@ -72,6 +82,11 @@ SPECS["C18"] = dict(
     lean_modules=["Woodpile.Props.C18"],
     theorems=[
         "Woodpile.Props.C18.snapshot_no_lock",
+        "Woodpile.Props.C18.sc_only_update_lock_blocks",
+        "Woodpile.Props.C18.sc_try_update_nonblocking",
+        "Woodpile.Props.C18.try_update_bounded",
+        "Woodpile.Props.C18.sc_solo_snapshot_terminates",
+        "Woodpile.Props.C18.sc_retry_only_on_publish",
         "Woodpile.Props.C18.unlocked_inherits",
     ],
     families=[dict(name="abt", quick=1500, thorough=60000)],
